@@ -13,6 +13,7 @@ R5 a parameter that a function takes over (stores into an object, releases or ha
    callers treat the hand-over as unconditional.
 (R3 teardown order is decided with C13.R3.)
 R6 container contract (rules/vecrule.py): libmy/vector.h keeps its invariants, element preservation, post-conditions and memory safety in every scenario (init/detach/destroy of the vectors are the allocation primitives under most owning fields).
+R7 transient marks: an entry my_fileset_reload marks as re-used does not itself stay in the fileset with the mark set (else a later reload skips its release).
 """
 import re
 from .common import *
@@ -207,6 +208,37 @@ def run(ctx, res):
                       "parameter %s is stored, released or handed on on every normal path (%d)" % (pname, took),
                       "%s takes over %s on some paths but drops it on another: callers hand it over for good, so the object leaks there" % (fn, pname),
                       g.loc(g.body), dropped.describe(g) if dropped is not None else None)
+
+    # ---- R7 transient marks in the setfile reload ---------------------------------------------------
+    # my_fileset_reload marks the old entries it re-uses so that the clean-up pass does not unload them.  The mark is
+    # only sound while it cannot survive the call: an entry that stays in the fileset with the mark set is skipped by
+    # the clean-up of a later reload that should have released it.
+    res.floor("C18.R7", 1)
+    mr = prog.need("my_fileset_reload", "libmy/my_fileset.c")
+    res.saw(mr)
+    marks = [(n, lhs) for n, lhs in field_stores(mr) if lhs.get("rec") == "fileset_entry" and n["k"] == "BinaryOperator" and n.get("op") == "="
+             and const_val(n["kids"][1]) not in (None, 0)]
+    clears = [(n, lhs) for n, lhs in field_stores(mr) if lhs.get("rec") == "fileset_entry" and n["k"] == "BinaryOperator" and n.get("op") == "="
+              and const_val(n["kids"][1]) == 0]
+    survivors_vec = set()
+    for n, lhs in field_stores(mr, "my_fileset", "entries"):
+        r = strip(n["kids"][1])
+        if r["k"] == "DeclRefExpr":
+            survivors_vec.add(r["name"])
+    if not survivors_vec:
+        raise BrokenAnalysis("my_fileset_reload no longer installs a new entry vector")
+    added = [canon(strip(call_args(c)[1])).strip("()") for c in mr.calls("entry_vec_add")
+             if strip(call_args(c)[0])["k"] == "DeclRefExpr" and strip(call_args(c)[0])["name"] in survivors_vec]
+    if not marks:
+        res.ok("C18.R7", site(mr, "marks"), "the reload sets no mark on entries")
+    for n, lhs in marks:
+        obj = canon(lhs["kids"][0]).strip("()")
+        survives = obj in added
+        cleared = any(c_lhs["field"] == lhs["field"] for _c, c_lhs in clears)
+        res.check(not survives or cleared, "C18.R7", site(mr, "mark:%s" % lhs["field"]),
+                  "the entry marked `%s` does not stay in the fileset (a fresh record replaces it)%s" % (lhs["field"], "" if not survives else ", or the mark is cleared again"),
+                  "the entry marked `%s` is itself carried over into the new entry vector and the mark is never cleared: when a later reload drops that "
+                  "file, the clean-up pass skips it - its reader, mapping and name are never released" % lhs["field"], mr.loc(n))
 
     # ---- verified exceptions -----------------------------------------------------
     rw = prog.need("result_worker", "mtbl/threadpool.c")
